@@ -367,7 +367,7 @@ type traffic struct {
 }
 
 func partB(r *vlib.Run) {
-	kinds := []string{"ok", "malformed", "unknown", "interval"}
+	kinds := []string{"ok", "ok2", "malformed", "unknown", "interval"}
 	depth := 5
 	seqs := [][]traffic{}
 	var gen func(p []traffic)
@@ -403,29 +403,37 @@ func partB(r *vlib.Run) {
 			panic(err)
 		}
 		_ = mp.RegisterRPCHandler("echo", func(w p2p.ResponseWriter, req *p2p.Request) { w.Write(req.Data) })
+		_ = mp.RegisterRPCHandler("echo2", func(w p2p.ResponseWriter, req *p2p.Request) { w.Write(req.Data) })
 		// procedures that see no traffic: the periodic reset has to reach every counter whatever the others hold
 		for _, idle := range []string{"idle-a", "idle-b", "idle-c", "idle-d", "idle-e", "idle-f"} {
 			_ = mp.RegisterRPCHandler(idle, func(w p2p.ResponseWriter, req *p2p.Request) {})
 		}
 		mp.VerifStart()
+		_ = 0
 		mp.VerifSetRateLimit("echo", 2, 10)
+		mp.VerifSetRateLimit("echo2", 2, 10)
 		stop := mp.VerifStartRateLimiter()
 		vclock.WaitTickers(1)
 		// model
 		score := map[int]int{}
-		inInterval := map[int]int{}
+		inInterval := map[[2]int]int{} // (peer, procedure) -> requests in the current interval: limits are per procedure
 		desc := []string{}
 		bad := ""
 		for i, t := range seq {
 			desc = append(desc, fmt.Sprintf("%s<-%s", t.Kind, ipKey[t.From]))
 			var msg []byte
 			switch t.Kind {
-			case "ok":
-				msg = request(fmt.Sprintf("id-%d", i), "echo", []byte{1})
-				inInterval[t.From]++
-				if inInterval[t.From] > 2 { // above the limit of 2 per interval: penalised, counter reset
+			case "ok", "ok2":
+				proc, pi := "echo", 0
+				if t.Kind == "ok2" {
+					proc, pi = "echo2", 1
+				}
+				msg = request(fmt.Sprintf("id-%d", i), proc, []byte{1})
+				k := [2]int{t.From, pi}
+				inInterval[k]++
+				if inInterval[k] > 2 { // above the limit of 2 per interval and procedure: penalised, counter reset
 					score[t.From] += 10
-					inInterval[t.From] = 0
+					inInterval[k] = 0
 				}
 			case "malformed":
 				msg = []byte{0xff, 0xff, 0xff}
@@ -435,7 +443,7 @@ func partB(r *vlib.Run) {
 				score[t.From] += p2p.MaxPenaltyScore
 			case "interval":
 				vclock.Tick()
-				inInterval = map[int]int{}
+				inInterval = map[[2]int]int{}
 				continue
 			}
 			if p := vlib.Catch(func() { mp.VerifOnRequest(context.Background(), &inStream{r: bytes.NewReader(msg), from: t.From}) }); p != "" {
@@ -545,7 +553,7 @@ func main() {
 	}
 	r.Set("traces_validated_against_impl", r.Get("states")+r.Get("traffic_sequences")+r.Get("loopback_scenarios"))
 	r.Set("depth", depth)
-	r.Set("explanation", "(a) every sequence of <=depth operations over 9 penalties (3 IPs incl. IPv6 x 10/50/100), 4 time advances around the expiry and the sweep interval, and the sweep tick on the real connection gater, all interception points compared with the score model after every step; (b) every traffic sequence of <=5 messages over {well-formed, malformed envelope, unknown procedure, end of rate interval} from two peers through the real onRequest and rate limiter (limit 2 per interval, penalty 10; six further procedures stay idle), disconnect calls recorded; (a2) every blacklist of one or two entries over 9 spellings (canonical, upper case, expanded, IPv4-mapped) blocks exactly the listed IPs at every interception point, before and after expiry time and sweep; (c) 11 loopback scenarios between two real libp2p hosts: each misbehaviour kind ends in disconnect + refusal in both directions until expiry, legal traffic and partial penalties do not, blacklisted IP refused permanently")
+	r.Set("explanation", "(a) every sequence of <=depth operations over 9 penalties (3 IPs incl. IPv6 x 10/50/100), 4 time advances around the expiry and the sweep interval, and the sweep tick on the real connection gater, all interception points compared with the score model after every step; (b) every traffic sequence of <=5 messages over {well-formed on either of two procedures, malformed envelope, unknown procedure, end of rate interval} from two peers through the real onRequest and rate limiter (limit 2 per interval, penalty 10; six further procedures stay idle), disconnect calls recorded; (a2) every blacklist of one or two entries over 9 spellings (canonical, upper case, expanded, IPv4-mapped) blocks exactly the listed IPs at every interception point, before and after expiry time and sweep; (c) 11 loopback scenarios between two real libp2p hosts: each misbehaviour kind ends in disconnect + refusal in both directions until expiry, legal traffic and partial penalties do not, blacklisted IP refused permanently")
 	r.Sample(caseT{[]string{"penalty(::1,50)", "penalty(::1,50)", "advance(1001s)", "sweep"}, "gater"})
 	r.Finish()
 }
